@@ -13,7 +13,7 @@ Import ListNotations. Open Scope Z_scope.
 Definition check_case := Pool.check_case.'''
 
 EXC = dict(RestartFreqExceeded=10, ValueError=11, TypeError=12, KeyError=13, AssertionError=14,
-           IndexError=15, AttributeError=16, Hang=17)
+           IndexError=15, AttributeError=16, Hang=17, WorkersJoined=20)
 
 
 def oz(v):
@@ -59,6 +59,8 @@ def ev_coq(e):
         return 'ETick'
     if k == 'tick_close':
         return '(ETickClose %d%%nat)' % a[0]
+    if k == 'join_shutdown':
+        return 'EJoinShutdown'
     if k == 'scan':
         return '(EScan %s)' % cbool(bool(a[0]) if a else False)
     if k == 'scan_begin':
@@ -236,6 +238,23 @@ def mon_C01(case, obs):
                     out.append(('C01:failure-attached-to-other-job', 'job %d carries WorkerLostError of job %s' % (k, j['val'][2])))
             if k in seen and not j['ready']:
                 out.append(('C01:outcome-withdrawn', 'job %d was ready and is not any more' % k))
+        # map_async handles: one callback at most, and the outcome never changes once observable
+        for k, j in enumerate(o['jobs']):
+            if j['kind'] != 'map':
+                continue
+            cbs = j['cb'][0] + j['cb'][1]
+            if cbs > 1:
+                out.append(('C01:callbacks-fired-twice', 'map job %d: %d result callbacks (success %d, error %d) after event %d %s'
+                            % (k, cbs, j['cb'][0], j['cb'][1], n, case['events'][n])))
+            if not j['ready'] and cbs:
+                out.append(('C01:callback-before-outcome', 'map job %d not ready but %d callbacks' % (k, cbs)))
+            if j['ready']:
+                if ('m', k) in seen and seen[('m', k)] != j['val']:
+                    out.append(('C01:outcome-changed', 'map job %d outcome changed from %s to %s at event %d %s'
+                                % (k, seen[('m', k)], j['val'], n, case['events'][n])))
+                seen.setdefault(('m', k), j['val'])
+            elif ('m', k) in seen:
+                out.append(('C01:outcome-withdrawn', 'map job %d was ready and is not any more' % k))
     return out
 
 
@@ -282,7 +301,7 @@ def mon_C04(case, obs):
                 marker.setdefault(k, j['lost'])
             if j['kind'] != 'apply':
                 continue
-            if e[0] == 'tick' and not o['exc'] and j['incache'] and not j['ready'] and j['lost']:
+            if e[0] in ('tick', 'join_shutdown') and o['exc'] in (None, 'WorkersJoined') and j['incache'] and not j['ready'] and j['lost']:
                 lt = case['cfg'].get('lost') or 10
                 # the job's own timeout is not observable here; use the largest possible
                 if o['now'] - j['lost'][0] > 10 and o['now'] - j['lost'][0] > lt:
@@ -766,6 +785,30 @@ def sweep_terminate_job():
     return out
 
 
+def sweep_shutdown_loss():
+    """a worker dies with a job while the pool is closed (before or after close()); the result
+    handler's drain loop (join_shutdown) is what turns the expired marker into a failure, also when no
+    worker is left at all"""
+    out = []
+    for n in (1, 2):
+        for close_first in (True, False):
+            for lost in (None, 2):
+                for others_exit in (True, False):
+                    ev = [['apply', None, None, lost, None], ['ack', 0, None, 0]]
+                    if close_first:
+                        ev += [['close']]
+                    ev += [['exit', 0, -9], ['tick']]
+                    if not close_first:
+                        ev += [['close']]
+                    if others_exit:
+                        ev += [['exit', i, 1] for i in range(1, n)]
+                    for _ in range(5):
+                        ev += [['join_shutdown'], ['advance', 3]]
+                    ev += [['join_shutdown'], ['tick']]
+                    out.append(dict(cfg=dict(n=n, max_restarts=100), events=ev))
+    return out
+
+
 def sweep_close_in_pass():
     """some workers have exited; the pass that replaces them is interrupted by close() after the
     first, second or third replacement; more passes follow"""
@@ -828,8 +871,8 @@ def mon_C01_unresolved(case, obs):
     return [('C01:job-unresolved-past-hard-limit', w) for s_, w in mon_C05_jobs(case, obs) if s_ == 'C05:not-timed-out-by-scan']
 
 
-SWEEPS = dict(C01=lambda: sweep_loss()[::3] + sweep_limits()[::3] + sweep_terminate_job(), C04=lambda: sweep_loss() + sweep_terminate_job(), C05=sweep_limits, C06=sweep_limits,
-              C07=sweep_close_in_pass,
+SWEEPS = dict(C01=lambda: sweep_loss()[::3] + sweep_limits()[::3] + sweep_terminate_job(), C04=lambda: sweep_loss() + sweep_terminate_job() + sweep_shutdown_loss(), C05=sweep_limits, C06=sweep_limits,
+              C07=lambda: sweep_close_in_pass() + sweep_shutdown_loss(),
               C08=lambda: sweep_loss()[::6] + sweep_terminate_job()[::2], C09=lambda: sweep_loss()[::6] + sweep_resize() + sweep_close_in_pass()[::2],
               C10=sweep_resize)
 
